@@ -25,6 +25,24 @@ def build_demo(demo, root, exe, asan=False):
         r = sh("gcc -g -w -I%s -I%s/include -I%s/include/libast %s %s %s -o %s" % (root, root, root, demo, lib, LIBS, exe))
     return r.returncode == 0, r.stderr[-500:]
 
+def run_demo(kdir, demo, root, exe, asan):
+    """-> (returncode or None, error text).  A demo.sh (argument: library root) takes precedence over demo.c."""
+    dsh = os.path.join(kdir, "demo.sh")
+    if os.path.exists(dsh):
+        try:
+            r = sh("cd %s && sh ./demo.sh %s" % (kdir, root), timeout=900)
+        except subprocess.TimeoutExpired:
+            return None, "demo.sh timed out"
+        return r.returncode, (r.stdout + r.stderr)[-300:]
+    ok, err = build_demo(demo, root, exe, asan)
+    if not ok:
+        return None, "build failed: " + err
+    try:
+        return sh(exe, timeout=120).returncode, ""
+    except subprocess.TimeoutExpired:
+        return 124, "timeout"
+
+
 def main():
     src, props = sys.argv[1], sys.argv[2:]
     tag = os.path.basename(os.path.dirname(src.rstrip("/"))).replace("wt-", "") if src.rstrip("/").endswith("_out") else "x"
@@ -46,9 +64,8 @@ def main():
             asan = "fsanitize" in readme or "ASan" in readme or "asan" in readme.lower()
             # demo on the unmodified tree
             sh("make -C %s" % d)
-            ok, err = build_demo(demo, d, d + "/demo_clean", asan)
-            r0 = sh(d + "/demo_clean", timeout=120) if ok else None
-            meta["ran"].append("demo on unmodified tree: " + ("exit %d" % r0.returncode if r0 else "build failed: " + err))
+            r0, err = run_demo(kdir, demo, d, d + "/demo_clean", asan)
+            meta["ran"].append("demo on unmodified tree: " + ("exit %d" % r0 if r0 is not None else err))
             r = sh("git -C %s apply %s" % (d, patch))
             if r.returncode != 0:
                 r = sh("cd %s && patch -p1 --no-backup-if-mismatch < %s" % (d, patch))
@@ -59,10 +76,9 @@ def main():
             rb = sh("python3 %s/tools/baseline.py %s" % (V, d))
             base_ok = rb.returncode == 0
             meta["ran"].append("baseline suite with the change: " + rb.stdout.strip().splitlines()[0])
-            ok, err = build_demo(demo, d, d + "/demo_mut", asan)
-            r1 = sh(d + "/demo_mut", timeout=120) if ok else None
-            meta["ran"].append("demo with the change: " + ("exit %d" % r1.returncode if r1 else "build failed: " + err))
-            valid = base_ok and r0 is not None and r0.returncode == 0 and r1 is not None and r1.returncode != 0
+            r1, err = run_demo(kdir, demo, d, d + "/demo_mut", asan)
+            meta["ran"].append("demo with the change: " + ("exit %d" % r1 if r1 is not None else err))
+            valid = base_ok and r0 == 0 and r1 is not None and r1 != 0
             verdicts = {}
             for p in props:
                 env = dict(os.environ, VERIF_REPO=d)
@@ -74,13 +90,14 @@ def main():
             meta["valid"] = valid
             meta["caught_by"] = [p for p, v in verdicts.items() if v["exit"] == 1]
             meta["needs"] = readme.strip()[:1500]
-            print("%s/%s valid=%s baseline=%s demo_clean=%s demo_mut=%s -> %s" % (tag, k, valid, base_ok, r0.returncode if r0 else None, r1.returncode if r1 else None,
+            print("%s/%s valid=%s baseline=%s demo_clean=%s demo_mut=%s -> %s" % (tag, k, valid, base_ok, r0, r1,
                   {p: (v["exit"], v["detail"][:1]) for p, v in verdicts.items()}))
             if valid:
                 out = os.path.join(V, "seeded", "%s-%s-%s" % (props[0], tag, k))
                 os.makedirs(out, exist_ok=True)
                 open(os.path.join(out, "patch.diff"), "w").write(applied)
                 shutil.copy(demo, os.path.join(out, "demo.c"))
+                if os.path.exists(os.path.join(kdir, "demo.sh")): shutil.copy(os.path.join(kdir, "demo.sh"), os.path.join(out, "demo.sh"))
                 if readme: open(os.path.join(out, "README.txt"), "w").write(readme)
                 json.dump(meta, open(os.path.join(out, "meta.json"), "w"), indent=1)
         finally:
